@@ -30,6 +30,9 @@ CHECKS = {
 CHECKS["C12"] = ("fault_enumeration", "6.C12", "Per generated rule set: store through a simulated disk, load, re-store, re-load with metadata and behavioural (Sim E trace) comparison; every write-call index failed once in sticky and transient mode; truncation at every write boundary plus seeded interior offsets (thorough: every byte); chunking readers; failing read calls; overwrite flag.",
  "Trusted base: the simulated writer/reader, Sim E as behavioural comparator (3 fact sets per rule set), the catalog write-order hook. Rule sets are sampled; the fault positions are enumerated per rule set.", "deterministic simulation with fault injection: simulated disk, per-scenario enumeration of write failures and truncation offsets")
 
+CHECKS["C09"] = ("exploration", "6.C09", "2-4 tasks create instances from one library and execute them on their own facts; a seeded cooperative scheduler decides the interleaving at every yield point (node-id draws inside Clone, hooked loops, seam events). Oracles: instance behaves like the library's own knowledge base; per-task result independent of task order and of interleaving; reflection over the pointer graph shows no shared mutable node; blueprint structurally unchanged.",
+ "Trusted base: the cooperative scheduler (real goroutines released one at a time), the reflection walker's list of mutable node types, Sim E as behavioural comparator. Interleaving granularity is seam/hook points, not instructions; data races that never change a value are outside this check.", "deterministic simulation: seeded interleaving search over cooperative tasks + pointer-graph isolation invariant")
+
 NOT_YET = {
  "C08": "not yet claimed: history simulation (Sim H) under construction",
  "C09": "not yet claimed: concurrency simulation (Sim K) under construction",
